@@ -56,6 +56,16 @@ NEEDS = {
  "C17c": "a request whose context ends by its own deadline (not cancel) while a lookup keeps failing",
  "C18c": "two direct senders both stalled between their write and inFlightUp while both responses are read (counter 0 -> -1 -> -2 -> -1 -> 0), then an idle period",
  "C18": "an unbatched request whose context is cancelled before the (late) response arrives, then an idle period longer than the read timeout",
+ "C01d": "a merge where the client cached a later merged region but not the first, and the cache entry just before the merged region does not overlap it; then a key in the stale region's range",
+ "C04d": "lookups that keep failing inside one lookupRegion call for longer than the region lookup timeout (meta row without a server, meta down, ZooKeeper errors), followed by recovery",
+ "C06d": "rows arriving as partial fragments: the first assembled row is right, every later fragmented row (same or later scan of the process) is returned fragment by fragment",
+ "C07d": "a batch needing at least three rounds with a call retried in rounds 1 and 2 that is not at the front of the batch; the caller's own batch slice compared with the results afterwards",
+ "C08d": "a table in a non-default namespace whose cached regions are replaced (split / merge / re-created)",
+ "C10d": "a Delete mixing a whole-family entry with a family of qualifiers, the whole-family entry visited first",
+ "C15d": "a conforming server stream with a chunk of more than 218421 uncompressed bytes (Hadoop's default cuts at 218422)",
+ "C16d": "two names of one table, one start key beginning with ',' and one beginning with a byte below ','",
+ "C19d": "a region on a server hosting nothing else is superseded while the server keeps running, then Close()",
+ "C20d": "a server's only cached region is replaced by regions on the same server (split with both daughters local)",
 }
 CHECKS = {  # seed -> checks to try (own property first)
  "C01": ["C01"], "C02": ["C02"], "C03": ["C03"], "C04": ["C04", "C09"], "C05": ["C05", "C12"], "C06": ["C06"], "C07": ["C07"],
@@ -63,6 +73,7 @@ CHECKS = {  # seed -> checks to try (own property first)
  "C14": ["C14"], "C15": ["C15", "C05"], "C19": ["C19", "C20"], "C20": ["C20", "C19"], "C02b": ["C02"], "C03b": ["C03"], "C09b": ["C09"], "C05b": ["C05"], "C06b": ["C06"], "C11b": ["C11"], "C12b": ["C12", "C02"], "C13b": ["C13"], "C14b": ["C14"], "C17b": ["C17", "C13"], "C18b": ["C18"], "C16": ["C16", "C01"], "C17": ["C17"], "C18": ["C18"],
  "C10c": ["C10"], "C01c": ["C01"], "C04c": ["C04", "C09"], "C07c": ["C07"], "C08c": ["C08"], "C09c": ["C09"], "C15c": ["C15"],
  "C16c": ["C16"], "C19c": ["C19", "C03"], "C20c": ["C20", "C19"],
+ "C01d": ["C01", "C08"], "C04d": ["C04", "C17"], "C06d": ["C06", "C14"], "C07d": ["C07"], "C08d": ["C08", "C01"], "C10d": ["C10"], "C15d": ["C15"], "C16d": ["C16"], "C19d": ["C19", "C20"], "C20d": ["C20", "C19"],
  "C02c": ["C02"], "C03c": ["C03"], "C05c": ["C05"], "C06c": ["C06"], "C11c": ["C11"], "C12c": ["C12", "C01"], "C13c": ["C13", "C03"], "C14c": ["C14"], "C17c": ["C17", "C13"], "C18c": ["C18"],
 }
 names = sys.argv[1:] or sorted(os.listdir('/verif/seeded'))
